@@ -513,7 +513,7 @@ def type_and_value(draw, cfg=None):
     if c['defaults'] and c['tags'] and c['implicit'] and not c.get('root_kinds') and c['max_depth'] >= 2 and d.pct(c.get('directed_pct', 2)):
         return empties_case(d)
     if c['choice'] and c['tags'] and c['implicit'] and not c.get('root_kinds') and c['max_depth'] >= 2 and c.get('many_elems_pct', 3) \
-            and d.pct(c.get('directed_pct', 2) / 2.0):
+            and d.pct(c.get('directed_pct', 2)):
         return many_choice_case(d)
     if c['defaults'] and not c.get('root_kinds') and c['max_depth'] >= 2 and d.pct(c.get('directed_pct', 2)):
         return codec_sensitive_default_case(d)
@@ -727,8 +727,9 @@ def many_choice_case(d):
     n = d.pick([96, 97, 98, 99, 100, 101, 128, 130])
     sd = D(d.draw, dict(d.cfg, long_str_pct=0))
     few = []
+    all_records = d.pct(60)          # every element a constructed alternative (what is kept per such element adds up fastest)
     for _ in range(4):
-        a = d.pick(C['alts'][:2] if d.pct(80) else C['alts'])
+        a = C['alts'][1] if all_records else d.pick(C['alts'][:2] if d.pct(80) else C['alts'])
         few.append((a['name'], draw_value(sd, a['t'])))
     lst = [few[(i * 3 + i // 4) % 4] for i in range(n)]
     if T['k'] == 'SEQUENCE':
